@@ -112,7 +112,7 @@ pub fn run(tier: Tier, seed: u64) -> i32 {
 
     // ------------------------------- regex -------------------------------------------------
     {
-        let max_size = tier.pick(4usize, 5usize);
+        let max_size = tier.pick(5usize, 6usize);
         let by = patterns_by_size(max_size);
         let mut texts: BTreeSet<String> = BTreeSet::new();
         for level in &by {
